@@ -32,6 +32,28 @@ fn main() {
         }
         return;
     }
+    if args.get(1).map(|s| s.as_str()) == Some("round") {
+        // tmc round "y,mo,w,d,h,mi,s,ms,us,ns" Y-M-D largest smallest inc mode   (units 0..9, mode name)
+        engine::install_panic_hook();
+        let f: Vec<f64> = args[2].split(',').map(|x| x.parse().unwrap()).collect();
+        let mut ff = [0f64; 10];
+        ff.copy_from_slice(&f);
+        let d: Vec<i64> = args[3].rsplitn(3, '-').map(|x| x.parse().unwrap()).collect();
+        let (day, month, year) = (d[0], d[1], if args[3].starts_with('-') { -d[2].abs() } else { d[2] });
+        let (l, sm, inc): (usize, usize, i64) = (args[4].parse().unwrap(), args[5].parse().unwrap(), args[6].parse().unwrap());
+        let mode = *tmc_ref::r4::ALL_MODES.iter().find(|m| m.name() == args[7]).unwrap();
+        let rel = tmc_ref::r2::Ymd::new(year, month as u8, day as u8);
+        println!("model  = {:?}", tmc_ref::r5r::round_relative(&ff, rel, l, inc, sm, mode));
+        let dur = imp::dur10(ff).unwrap();
+        let pd = imp::pd(year, month as u8, day as u8).unwrap();
+        let got = engine::call(|| dur.round_with_provider(imp::round_opts(Some(imp::ALL_UNITS[l]), Some(imp::ALL_UNITS[sm]), Some(conv::imode(mode)), Some(inc as u32)), Some(temporal_rs::options::RelativeTo::PlainDate(pd.clone())), &providers::ErrProvider));
+        println!("impl   = {}", got.map(|d| format!("{:?}", conv::dur_i128(&d))).describe());
+        for u in 0..10 {
+            let t = engine::call(|| dur.total_with_provider(imp::ALL_UNITS[u], Some(temporal_rs::options::RelativeTo::PlainDate(pd.clone())), &providers::ErrProvider));
+            println!("total[{u}] model={:?} impl={}", tmc_ref::r5r::total_relative(&ff, rel, u), t.map(|x| x.as_inner()).describe());
+        }
+        return;
+    }
     if args.get(1).map(|s| s.as_str()) == Some("bench") {
         bench::bench();
         return;
